@@ -39,9 +39,12 @@ type c09Case struct {
 	ReqVersion string     `json:"request_version"`
 	Supported  []string   `json:"supported,omitempty"`
 	Others     [][]string `json:"other_executors,omitempty"`
-	CountOff   int        `json:"batch_count_offset"`
-	IDs        string     `json:"ids"` // none | all | some
-	PanicVal   string     `json:"panic_value,omitempty"`
+	// PriorDiscover: DiscoverVersions requests (each listing these client versions) served before the batch, by the
+	// executor under test (Others empty) or by another default executor; how a batch is treated must not depend on them.
+	PriorDiscover [][]string `json:"prior_discover_requests,omitempty"`
+	CountOff      int        `json:"batch_count_offset"`
+	IDs           string     `json:"ids"` // none | all | some
+	PanicVal      string     `json:"panic_value,omitempty"`
 }
 
 type stringer struct{ s string }
@@ -171,6 +174,20 @@ func c09Run(c c09Case) (sig string, err error) {
 	if len(c.Supported) > 0 {
 		exec.SetSupportedProtocolVersions(parseVersions(c.Supported)...)
 	}
+	for i, l := range c.PriorDiscover {
+		target := exec
+		if i%2 == 1 {
+			target = kmipserver.NewBatchExecutor() // every other one goes to another default-configured executor
+		}
+		hv := kmip.V1_2
+		if len(c.Supported) > 0 && i%2 == 0 {
+			hv = parseVersion(c.Supported[0])
+		}
+		dm := kmip.NewRequestMessage(hv, &payloads.DiscoverVersionsRequestPayload{ProtocolVersion: parseVersions(l)})
+		if perr := safely(func() error { _ = target.HandleRequest(context.Background(), &dm); return nil }); perr != nil {
+			return "discover-panics", perr
+		}
+	}
 	req := buildRequest(c)
 	var resp *kmip.ResponseMessage
 	if perr := safely(func() error { resp = exec.HandleRequest(context.Background(), req); return nil }); perr != nil {
@@ -264,7 +281,7 @@ var c09Sets = [][]string{{"1.4", "1.2"}, {"1.2"}, {"1.0", "1.3"}, {"1.1", "1.2",
 
 func TestC09Exhaustive(t *testing.T) {
 	const name = "TestC09Exhaustive"
-	rec := evid.New("C09", name, "all batches of length 0..3 over the six item outcomes x option {unset, Continue, Stop, Undo} x version {each of 1.0..1.4 on a default executor, unsupported 0.9/1.5/2.0/3.1, inside/outside one of six restricted sets; in a third of the cases another executor was given a restricted set just before} x batch count offset {-1,0,+1} x ids {none, all, some}, "+
+	rec := evid.New("C09", name, "all batches of length 0..3 over the six item outcomes x option {unset, Continue, Stop, Undo} x version {each of 1.0..1.4 on a default executor, unsupported 0.9/1.5/2.0/3.1, inside/outside one of six restricted sets; in a third of the cases another executor was given a restricted set just before; in a quarter one or two DiscoverVersions requests with partial version lists were served before, by this or another default executor} x batch count offset {-1,0,+1} x ids {none, all, some}, "+
 		"each executed once against a fresh BatchExecutor and compared with the executable model of the KMIP batch semantics; non-trivial = >= 2 items with a failing item that is not last, or a rejected request with >= 1 item; distinct by case").Attach(t)
 	rec.Exhaustive(true)
 	if rp := evid.LoadReplay(name); rp != nil {
@@ -323,6 +340,12 @@ func TestC09Exhaustive(t *testing.T) {
 						if k%3 == 0 {
 							c.Others = [][]string{c09Sets[(k/3)%len(c09Sets)]}
 						}
+						if k%4 == 1 {
+							c.PriorDiscover = [][]string{c09Sets[(k/4)%len(c09Sets)]}
+							if k%8 == 1 {
+								c.PriorDiscover = append(c.PriorDiscover, c09Sets[(k/8)%len(c09Sets)])
+							}
+						}
 						c09Label(&c)
 						key, _ := json.Marshal(c)
 						rec.Case(c09NonTrivial(c), key)
@@ -342,7 +365,7 @@ func TestC09Exhaustive(t *testing.T) {
 
 func TestC09Random(t *testing.T) {
 	const name = "TestC09Random"
-	rec := evid.New("C09", name, "rapid: batches of 4..12 items with drawn outcomes, option, request version, supported set of this executor and of up to two other executors configured before it, batch count offset, id mode and panic value; same model; "+
+	rec := evid.New("C09", name, "rapid: batches of 4..12 items with drawn outcomes, option, request version, supported set of this executor and of up to two other executors configured before it, up to three DiscoverVersions requests served before the batch, batch count offset, id mode and panic value; same model; "+
 		"non-trivial as in TestC09Exhaustive; distinct by case").Attach(t)
 	if rp := evid.LoadReplay(name); rp != nil {
 		var c c09Case
@@ -374,9 +397,10 @@ func TestC09Random(t *testing.T) {
 			c.Supported = rapid.SliceOfNDistinct(rapid.SampledFrom(c09Default), 1, 4, rapid.ID[string]).Draw(rt, "supported")
 		}
 		c.Others = rapid.SliceOfN(rapid.SliceOfNDistinct(rapid.SampledFrom(c09Default), 1, 5, rapid.ID[string]), 0, 2).Draw(rt, "others")
+		c.PriorDiscover = rapid.SliceOfN(rapid.SliceOfNDistinct(rapid.SampledFrom(c09Default), 0, 5, rapid.ID[string]), 0, 3).Draw(rt, "prior-discover")
 		c09Label(&c)
 		key, _ := json.Marshal(c)
-		rec.Case(c09NonTrivial(c), key, fmt.Sprintf("option=%d", c.Option), "version="+c.Version, fmt.Sprintf("other-executors=%v", len(c.Others) > 0))
+		rec.Case(c09NonTrivial(c), key, fmt.Sprintf("option=%d", c.Option), "version="+c.Version, fmt.Sprintf("other-executors=%v", len(c.Others) > 0), fmt.Sprintf("prior-discover=%v", len(c.PriorDiscover) > 0))
 		if c09NonTrivial(c) && rec.WantSample() {
 			rec.Sample(c)
 		}
